@@ -1,5 +1,201 @@
 import RV.Json
+import RV.Model.LuaJson
+import RV.Oracle.C16
+import RV.Gen.LuaGlobals
 namespace RV.Drv.LuaJson
-open Lean RV
-def handle : Handler := fun op _ _ => .error s!"LuaJson: op {op} not implemented"
+open Lean RV RV.LuaJson RV.Oracle.C16
+
+/-! JSON ⇄ model values -/
+
+partial def jOfJson : Json → R J
+  | .null => .ok .null
+  | .bool b => .ok (.bool b)
+  | .num n => if n.exponent == 0 then .ok (.num n.mantissa) else .error s!"non-integer number {n}"
+  | .str s => .ok (.str s)
+  | .arr xs => do return .arr (← xs.toList.mapM jOfJson)
+  | .obj kvs => do
+      let l ← (kvs.toList).mapM fun (k, v) => do return (k, ← jOfJson v)
+      return .obj l
+
+partial def jToJson : J → Json
+  | .null => .null
+  | .bool b => .bool b
+  | .num n => intJ n
+  | .str s => .str s
+  | .arr xs => arrJ (xs.map jToJson)
+  | .obj kvs => mkObj (kvs.map fun (k, v) => (k, jToJson v))
+
+def keyOfJson : Json → R Key
+  | .str s => .ok (.str s)
+  | .null => .ok .other
+  | .num n => if n.exponent == 0 then .ok (.int n.mantissa) else .error s!"non-integer key {n}"
+  | j => .error s!"bad key {j.compress}"
+
+partial def lvalOfJson : Json → R LVal
+  | .null => .ok .nil
+  | .bool b => .ok (.bool b)
+  | .num n => if n.exponent == 0 then .ok (.num n.mantissa) else .error s!"non-integer number {n}"
+  | .str s => .ok (.str s)
+  | j@(.obj _) =>
+    match jopt j "fn", jopt j "id" with
+    | some _, _ => .ok .func
+    | _, some idj => do
+      let id ← jnat idj
+      match jopt j "cut" with
+      | some _ => return .tbl id []
+      | none =>
+        let kvs ← fArr j "kv"
+        let es ← kvs.mapM fun e => do
+          match (← jarr e) with
+          | [k, v] => return (← keyOfJson k, ← lvalOfJson v)
+          | _ => .error s!"bad kv {e.compress}"
+        return .tbl id es
+    | _, _ => .error s!"bad lua value {j.compress}"
+  | j => .error s!"bad lua value {j.compress}"
+
+def errName : EncErr → String
+  | .nested => "nested" | .sparse => "sparse" | .keys => "keys" | .type => "type"
+
+def errOfName : String → Option EncErr
+  | "nested" => some .nested | "sparse" => some .sparse | "keys" => some .keys | "type" => some .type
+  | _ => none
+
+def outJson : Except EncErr J → Json
+  | .ok j => mkObj [("ok", jToJson j)]
+  | .error e => mkObj [("err", strJ (errName e))]
+
+def implOut (impl : Json) : ImplOut :=
+  match impl.getObjVal? "ok" with
+  | .ok j => match jOfJson j with
+    | .ok v => .ok v
+    | .error _ => .bad
+  | .error _ =>
+    match impl.getObjVal? "err" with
+    | .ok (.str s) => match errOfName s with
+      | some e => .err e
+      | none => .bad
+    | _ => .bad
+
+/-! classification helpers for the distribution tags -/
+
+mutual
+partial def hasNullMember : J → Bool
+  | .arr xs => xs.any (fun x => x.isNull || hasNullMember x)
+  | .obj kvs => kvs.any (fun (_, x) => x.isNull || hasNullMember x)
+  | _ => false
+end
+
+partial def hasEmpty : J → Bool
+  | .arr xs => xs.isEmpty || xs.any hasEmpty
+  | .obj kvs => kvs.isEmpty || kvs.any (fun (_, x) => hasEmpty x)
+  | _ => false
+
+def bucket (n : Nat) : String :=
+  if n ≤ 1 then "1" else if n ≤ 5 then "2-5" else if n ≤ 20 then "6-20" else if n ≤ 80 then "21-80" else ">80"
+
+def hasDup : List Nat → Bool
+  | [] => false
+  | x :: xs => xs.contains x || hasDup xs
+
+def contains (s sub : String) : Bool := (s.splitOn sub).length > 1
+
+/-- Guard of known finding `patternBacktrack`: the script calls one of the pattern
+    matching functions of the string library (whose backtracking matcher runs inside a
+    single VM instruction and is not interrupted by the deadline). -/
+def usesPatternMatching (script : String) : Bool :=
+  ["find", "match", "gmatch", "gsub", "gfind"].any fun f =>
+    contains script s!"string.{f}" || contains script s!":{f}("
+
+def isNameChar (c : Char) : Bool := c.isAlphanum || c == '_' || c == '.' || c == ':'
+
+/-- Guard of known finding `tailCallLoop`: the script contains a tail call
+    (`return name(`).  gopher-lua counts tail calls per frame and, when an error is
+    raised, formats one traceback line per counted tail call before truncating. -/
+def hasTailCall (script : String) : Bool :=
+  ((script.splitOn "return ").drop 1).any fun seg =>
+    let cs := seg.toList
+    let name := cs.takeWhile isNameChar
+    !name.isEmpty && (cs.drop name.length).head? == some '('
+
+/-- the round trip through the Lua-side json library: `json.decode(json.encode(obj))`
+    wrapped in `{v = …}` and encoded again by the caller. -/
+def luajsonModel (v : J) : Except EncErr J :=
+  match encode (decode 0 v).1 with
+  | .error e => .error e
+  | .ok c1 => encode (decode 0 (.obj [("v", c1)])).1
+
+def handle : Handler := fun op inp impl => do
+  match op with
+  | "roundtrip" =>
+    let mode ← fStr inp "mode"
+    let v ← jOfJson (← jget inp "v")
+    let out := implOut impl
+    let model := if mode == "luajson" then luajsonModel v else encode (decode 0 v).1
+    let expected := if mode == "luajson" then J.obj [("v", canon v)] else v
+    let c := canon v
+    let tags := [s!"rt:mode:{mode}", s!"rt:size:{bucket v.size}", s!"rt:depth:{v.depth}"]
+      ++ (if c.beq v then ["rt:identity"] else ["rt:normalised"])
+      ++ (if hasNullMember v then ["rt:null-member"] else [])
+      ++ (if hasEmpty v then ["rt:empty-container"] else [])
+      ++ (if clean v then ["rt:clean"] else [])
+      ++ (if v.depth == 0 then ["trivial"] else [])
+    return { model := outJson model,
+             holds := [("C16.roundtrip_meaning", roundtripHolds expected out),
+                       ("C16.encode_error_is_value", encodeAnswered out)],
+             tags := tags }
+  | "encode" =>
+    let via ← fStr inp "via"
+    let lj := jgetD inp "l" .null
+    let out := implOut impl
+    -- a script that did not return (l = null and impl err "script"/"notTable") carries no model
+    match impl.getObjVal? "err" with
+    | .ok (.str "script") => return { tags := ["enc:script-failed", "trivial"] }
+    | _ =>
+    let l ← lvalOfJson lj
+    let r := encode l
+    let tags := [s!"enc:via:{via}", s!"enc:size:{bucket l.size}"]
+      ++ (match r with | .ok _ => ["enc:ok"] | .error e => [s!"enc:err:{errName e}"])
+      ++ (if hasDup (ids l) then ["enc:repeated-table"] else [])
+      ++ (match l with | .tbl _ [] => ["trivial"] | .tbl _ _ => [] | _ => ["enc:not-a-table"])
+    return { model := outJson r,
+             holds := [("C16.encode_error_is_value", encodeAnswered out)],
+             tags := tags }
+  | "global" =>
+    let name ← fStr inp "name"
+    match impl.getObjVal? "present" with
+    | .ok (.bool present) =>
+      return { model := mkObj [("present", boolJ (RV.Gen.luaGlobals.contains name))],
+               holds := [("C16.no_capability_reachable", nameAllowed name present)],
+               tags := [if present then "global:present" else "global:absent"]
+                 ++ (if isCapability name then ["global:capability-name"] else []) }
+    | _ => .error s!"global: unexpected impl {impl.compress}"
+  | "probe" =>
+    let kind ← fStr inp "kind"
+    let same ← fBool impl "same"
+    let leak ← fBool impl "leak"
+    let effect ← fBool impl "effect"
+    let inTime ← fBool impl "in_time"
+    let pan ← fBool impl "panic"
+    let outcome ← fStr impl "outcome"
+    return { model := .null,
+             holds := [("C16.no_escape", noEscape same leak effect),
+                       ("C16.returns_in_time", returnsInTime inTime),
+                       ("C16.no_panic", noPanic pan)],
+             tags := [s!"probe:{kind}", s!"probe:outcome:{outcome}"] }
+  | "run" =>
+    let cls ← fStr inp "class"
+    let script ← fStr inp "script"
+    let inTime ← fBool impl "in_time"
+    let pan ← fBool impl "panic"
+    let outcome ← fStr impl "outcome"
+    return { model := .null,
+             holds := [("C16.returns_in_time", returnsInTime inTime),
+                       ("C16.no_panic", noPanic pan),
+                       ("C16.table_or_error", tableOrError outcome || !inTime)],
+             tags := [s!"run:{cls}", s!"run:outcome:{outcome}", s!"run:len:{bucket (script.length / 10)}"]
+               ++ (if usesPatternMatching script then ["guard:patternBacktrack"] else [])
+               ++ (if hasTailCall script then ["guard:tailCallLoop"] else [])
+               ++ (if script.isEmpty then ["trivial"] else []) }
+  | _ => .error s!"luajson: unknown op {op}"
+
 end RV.Drv.LuaJson
